@@ -1,14 +1,22 @@
 #!/bin/bash
 # run.sh <bin> — build the replay crate against the crates of $VX_REPO (default /repo) and run one witness search.
 # Prints `WITNESS <description>` and exits 1 when it finds a concrete input on which the REAL code violates the property.
-cd "$(dirname "$0")"
+# Concurrency-safe: the manifest is generated into a per-repository directory under the target dir; the sources are shared.
+HERE="$(cd "$(dirname "$0")" && pwd)"
 REPO=${VX_REPO:-/repo}
-sed "s#@REPO@#$REPO#g" Cargo.toml.in > Cargo.toml
-cp "$REPO/Cargo.lock" Cargo.lock 2>/dev/null
 export CARGO_TARGET_DIR=${VX_REPLAY_TARGET:-/verif/build/replay_target}
 export CARGO_NET_OFFLINE=true
-cargo run -q --offline --bin "$1" 2>/tmp/replay_build_$$.log
+W="$CARGO_TARGET_DIR/manifest-$(echo -n "$REPO" | md5sum | cut -c1-10)"
+mkdir -p "$W/.cargo"
+sed "s#@REPO@#$REPO#g" "$HERE/Cargo.toml.in" > "$W/Cargo.toml.new"
+cmp -s "$W/Cargo.toml.new" "$W/Cargo.toml" || mv "$W/Cargo.toml.new" "$W/Cargo.toml"
+rm -f "$W/Cargo.toml.new"
+cp "$REPO/Cargo.lock" "$W/Cargo.lock" 2>/dev/null
+printf '[net]\noffline = true\n' > "$W/.cargo/config.toml"
+ln -sfn "$HERE/src" "$W/src"
+LOG=$(mktemp /tmp/replay_build.XXXXXX)
+(cd "$W" && cargo run -q --offline --bin "$1" 2>"$LOG")
 rc=$?
-if [ $rc -ne 0 ] && [ $rc -ne 1 ]; then tail -20 /tmp/replay_build_$$.log; fi
-rm -f /tmp/replay_build_$$.log
+if [ $rc -ne 0 ] && [ $rc -ne 1 ]; then tail -20 "$LOG"; fi
+rm -f "$LOG"
 exit $rc
